@@ -280,7 +280,11 @@ class Program:
 
     # ---- lookup helpers --------------------------------------------------------------
     def fn(self, path):
-        return self.fns.get(path)
+        f = self.fns.get(path)
+        if f is None and isinstance(path, str) and "bignumber::" in path:
+            # `bignumber` re-exports its `math` module's items at the crate root
+            f = self.fns.get(re.sub(r"bignumber::(?!math::)", "bignumber::math::", path))
+        return f
 
     def prod_fns(self):
         """Production functions with bodies: not derived, not mock_querier, not test modules."""
